@@ -1136,6 +1136,12 @@ impl<R: BufRead> NsReader<R> {
 //@rewrite fn read_event_into_async ==> fn read_event_impl
 //@rewrite self.reader.read_event_into_async( ==> self.reader.read_event_impl(
 //@end
+//@extract ns_reader::NsReader::read_resolved_event_into#async | src/reader/async_tokio.rs :: impl<R: AsyncBufRead + Unpin> NsReader<R> :: fn read_resolved_event_into_async | clone_of=ns_reader::NsReader::read_resolved_event_into rename=read_resolved_event_into:read_resolved_event_into__async drop=async,await serves=C05 nocanary=1
+//@rewrite fn read_resolved_event_into_async<'ns, 'b> ==> fn read_resolved_event_into<'b>
+//@rewrite &'ns mut self, ==> &mut self,
+//@rewrite ResolveResult<'ns> ==> ResolveResult
+//@rewrite self.read_event_into_async(buf) ==> self.read_event_impl(buf)
+//@end
 }
 
 impl<'i> NsReader<&'i [u8]> {
